@@ -65,6 +65,10 @@ class VroomMon(Monitor):
         r = self.led.get(id(x))
         if not r:
             return -math.inf
+        if self.lcb_w < 0:
+            # delta = 4b/(f_max sqrt(n)) > 4 n^3 (a huge b with a tiny f_max): the published width is the square
+            # root of a negative number; the code computes nan and every rank order is then as good as any other
+            return math.nan
         return math.fsum(r) / len(r) - math.sqrt(self.lcb_w / (2 * len(r)))
 
     def on_pull(self, ctx, t, pt):
@@ -88,7 +92,7 @@ class VroomMon(Monitor):
             vals = [self.lcb(layer[i]) for i in order]
             self.obs["rank_orders_checked"] += 1
             for a_, b_ in zip(vals, vals[1:]):
-                if a_ < b_ and not close(a_, b_, 1e-9, 1e-12):
+                if a_ < b_ and not close(a_, b_, 1e-9, 1e-12) and not (math.isnan(a_) or math.isnan(b_)):
                     self.v("C13:rank_not_non_increasing_in_lower_confidence_value", depth=h, better=b_, worse=a_)
                     return
             exp += [1.0 / (h * r * self.Cn) for r in ranks]
